@@ -1,11 +1,792 @@
-//! C18: not built yet
+//! C18: client keep-alive pings on time, detects a silent broker, raises no false keep-alive
+//! failure, never pings with keep-alive 0, and reports an incomplete connect/handshake as a
+//! timeout. Substrate S3 (real `EventLoop::poll()` of both clients, scripted broker, virtual
+//! time). Every verdict is arithmetic on virtual timestamps of the wire / `poll()` log.
 use super::{Meta, Prop};
-use crate::common::{Ctx, Stats};
+use crate::common::{fnv, judge, sharded, Ctx, Judged, Record, Rng, Stats};
+use crate::sub::s3::{self, *};
+use serde::{Deserialize, Serialize};
+use serde_json::{json, Value};
 
-fn run(_ctx: &Ctx) -> Stats {
-    let mut s = Stats::default();
-    s.inconclusive.push("check not built yet".into());
-    s
+/// tolerance on every deadline: tokio's timer wheel has 1 ms resolution and a deadline can be
+/// rounded up once per timer involved
+const TOL: Ms = 5;
+
+#[derive(Clone, Debug, Serialize, Deserialize, PartialEq)]
+enum PingDelay {
+    Ms(u64),
+    Never,
+}
+
+/// periodic QoS-q publishes starting `phase` ms after the connection was accepted
+#[derive(Clone, Debug, Serialize, Deserialize, PartialEq)]
+struct Flow {
+    phase: u64,
+    period: u64,
+    qos: u8,
+    /// extra payload bytes (to fill the pipe in the stall scenarios)
+    #[serde(default)]
+    pad: usize,
+}
+
+#[derive(Clone, Debug, Serialize, Deserialize, PartialEq)]
+enum Family {
+    /// PINGRESP delayed by `delay` from ping number `from_ping` on
+    PingDelay { delay: PingDelay, from_ping: usize },
+    /// the broker writes nothing at or after `at` ms
+    Silence { at: u64 },
+    /// (trigger of KF "stalled peer") the broker stops *reading* at `at` ms while the user keeps
+    /// publishing: the client blocks in a write
+    Stall { at: u64 },
+    /// keep-alive 0 (v4): run for `for_s` virtual seconds
+    Zero { for_s: u64 },
+    /// (v5) the CONNACK carries `server_keep_alive = s`
+    ServerKeepAlive { s: u16 },
+    /// connect / handshake timing: the transport connects after `accept` ms (None = never), the
+    /// CONNACK is written `connack` ms after the CONNECT (None = never); `partial` writes only
+    /// the first two CONNACK bytes; `second` = do it on the second connection of the run
+    Connect {
+        accept: Option<u64>,
+        connack: Option<u64>,
+        partial: bool,
+        second: bool,
+        timeout_s: u64,
+    },
+}
+
+#[derive(Clone, Debug, Serialize, Deserialize, PartialEq)]
+struct Case {
+    ver: String,
+    k_s: u64,
+    family: Family,
+    incoming: Option<Flow>,
+    outgoing: Option<Flow>,
+    /// virtual duration of the keep-alive scenarios, in ms
+    run_ms: u64,
+}
+
+fn ver_of(c: &Case) -> Ver {
+    if c.ver == "v5" {
+        Ver::V5
+    } else {
+        Ver::V4
+    }
+}
+
+fn build(case: &Case) -> Scenario {
+    let ver = ver_of(case);
+    let mut scn = Scenario::new(ver);
+    scn.snap = SnapLevel::Light;
+    scn.opts.keep_alive_s = case.k_s;
+    scn.opts.clean_session = true;
+    scn.opts.inflight = 100;
+    scn.opts.channel_cap = 4096;
+    let k = case.k_s * 1000;
+    let mut policy = ConnPolicy::normal(false);
+    let mut run_ms = case.run_ms;
+    scn.stop.when = vec![When::AfterErr(0)];
+
+    // background traffic
+    let mut traffic_end = run_ms;
+    if let Family::Silence { at } | Family::Stall { at } = &case.family {
+        traffic_end = traffic_end.min(at + 3 * k.max(1000));
+    }
+    if let Some(f) = &case.incoming {
+        let mut t = f.phase;
+        let mut n = 0u16;
+        while t < traffic_end && n < 2000 {
+            n += 1;
+            let frame = s3::wire::publish(f.qos, if f.qos == 0 { 0 } else { n }, "in", &format!("b:{n}"), false, false);
+            policy.unsolicited.push(Burst { at_ms: t, frames: vec![frame] });
+            t += f.period.max(1);
+        }
+    }
+    if let Some(f) = &case.outgoing {
+        let mut t = f.phase;
+        let mut n = 0;
+        while t < traffic_end && n < 2000 {
+            n += 1;
+            // a little after the CONNACK at the earliest: the request must not precede the connect
+            scn.user.push(UserStep {
+                when: When::AtMs(t.max(1)),
+                act: Act::publish(f.qos, "out", &format!("u:{n}{}", "x".repeat(f.pad))),
+            });
+            t += f.period.max(1);
+        }
+    }
+
+    match &case.family {
+        Family::PingDelay { delay, from_ping } => {
+            let rest = match delay {
+                PingDelay::Ms(0) => Reply::Normal,
+                PingDelay::Ms(d) => Reply::Delay(*d),
+                PingDelay::Never => Reply::Drop,
+            };
+            policy.rules.insert(On::PingReq, RuleSeq::normal_then(*from_ping, rest));
+        }
+        Family::Silence { at } => policy.silent_from_ms = Some(*at),
+        Family::Stall { at } => {
+            policy.stop_reading_at_ms = Some(*at);
+            policy.silent_from_ms = Some(*at);
+            policy.pipe_capacity = 256;
+        }
+        Family::Zero { for_s } => {
+            run_ms = for_s * 1000;
+        }
+        Family::ServerKeepAlive { s } => {
+            policy.connack = ConnAckRule::Send {
+                session_present: false,
+                code: 0,
+                delay_ms: 0,
+                props: Some(rumqttd::protocol::ConnAckProperties {
+                    server_keep_alive: Some(*s),
+                    ..Default::default()
+                }),
+            };
+        }
+        Family::Connect {
+            accept,
+            connack,
+            partial,
+            second,
+            timeout_s,
+        } => {
+            scn.opts.conn_timeout_s = *timeout_s;
+            let mut p = ConnPolicy::normal(false);
+            p.accept = match accept {
+                Some(d) => Accept::After(*d),
+                None => Accept::Never,
+            };
+            p.connack = match (connack, partial) {
+                (None, _) => ConnAckRule::Never,
+                (Some(d), false) => ConnAckRule::Send {
+                    session_present: false,
+                    code: 0,
+                    delay_ms: *d,
+                    props: None,
+                },
+                (Some(d), true) => ConnAckRule::Raw {
+                    bytes: vec![0x20, if ver == Ver::V4 { 0x02 } else { 0x03 }],
+                    delay_ms: *d,
+                    note: "first two bytes of a CONNACK".into(),
+                },
+            };
+            if *second {
+                // a normal first connection that the broker closes after 300 ms
+                let mut first = ConnPolicy::normal(false);
+                first.close_at_ms = Some(300);
+                scn.conns = vec![ConnPlan { policy: first, fault: Fault::NONE }, ConnPlan { policy: p, fault: Fault::NONE }];
+                scn.stop.when = vec![When::AfterErr(1), When::AfterConnAck(1)];
+            } else {
+                scn.conns = vec![ConnPlan { policy: p, fault: Fault::NONE }];
+                scn.stop.when = vec![When::AfterErr(0), When::AfterConnAck(0)];
+            }
+            scn.horizon_ms = 300 + (timeout_s + 30) * 1000;
+            return scn;
+        }
+    }
+    scn.conns = vec![ConnPlan { policy, fault: Fault::NONE }];
+    scn.stop.when.push(When::AtMs(run_ms));
+    scn.horizon_ms = run_ms + 2 * k + 5000;
+    scn
+}
+
+fn shape(case: &Case) -> u64 {
+    let k = (case.k_s * 1000).max(1);
+    // phases are abstracted to their K/8 slot, delays to their class
+    let fam = match &case.family {
+        Family::PingDelay { delay, from_ping } => {
+            let class = match delay {
+                PingDelay::Never => "never".to_owned(),
+                PingDelay::Ms(d) if *d + 1 == k => "K-1".into(),
+                PingDelay::Ms(d) if *d == k => "K".into(),
+                PingDelay::Ms(d) if *d == k + 1 => "K+1".into(),
+                PingDelay::Ms(d) => format!("{}/8", d * 8 / k),
+            };
+            format!("delay:{class}:{from_ping}")
+        }
+        Family::Silence { at } => format!("silence:{}", at * 8 / k),
+        Family::Stall { at } => format!("stall:{}", at * 8 / k),
+        Family::Zero { .. } => "zero".into(),
+        Family::ServerKeepAlive { s } => format!("ska:{s}"),
+        Family::Connect {
+            accept,
+            connack,
+            partial,
+            second,
+            timeout_s,
+        } => {
+            let t = timeout_s * 1000;
+            let total = match (accept, connack) {
+                (Some(a), Some(c)) if !partial => Some(a + c),
+                _ => None,
+            };
+            let class = match total {
+                None => "never".to_owned(),
+                Some(x) if x + 1 == t => "T-1".into(),
+                Some(x) if x == t + 1 => "T+1".into(),
+                Some(x) if x == t => "T".into(),
+                Some(x) => format!("{}/4", x * 4 / t),
+            };
+            format!("connect:{}:{}:{class}:{partial}:{second}", accept.is_some(), connack.is_some())
+        }
+    };
+    let flow = |f: &Option<Flow>| match f {
+        None => "-".to_owned(),
+        Some(f) => format!("{}:{}:{}", f.phase * 8 / k, f.period * 8 / k, f.qos),
+    };
+    fnv(format!("{}|{}|{}|{}|{}", case.ver, case.k_s, fam, flow(&case.incoming), flow(&case.outgoing)).as_bytes())
+}
+
+/// (record, is it the first thing wrong in this history)
+fn verdicts(case: &Case, log: &RunLog, stats: &mut Stats) -> Vec<Record> {
+    let mut out = vec![];
+    let k = case.k_s * 1000;
+    let base = |oracle: &str, msg: String| {
+        Record::new("C18", oracle, msg)
+            .fact("client", case.ver.clone())
+            .fact("keep_alive_s", case.k_s)
+    };
+    if let Some(p) = &log.panic {
+        out.push(
+            base("panic", format!("panic in the client at {}: {}", p.location, p.message))
+                .fact("site", crate::common::panic_site(p)),
+        );
+        return out;
+    }
+
+    // ---------------- connect / handshake timeout
+    if let Family::Connect {
+        accept,
+        connack,
+        partial,
+        second,
+        timeout_s,
+    } = &case.family
+    {
+        let conn = if *second { 1 } else { 0 };
+        let t = timeout_s * 1000;
+        // the poll() call that started this connect
+        let Some(last) = log.polls.last() else {
+            stats.inconclusive.push("connect scenario produced no poll() return".into());
+            return out;
+        };
+        if last.conn != Some(conn) {
+            stats.inconclusive.push(format!("connect scenario ended on connection {:?}", last.conn));
+            return out;
+        }
+        let started = last.called;
+        let completes = match (accept, connack) {
+            (Some(a), Some(c)) if !partial => Some(a + c),
+            _ => None,
+        };
+        let timed_out = matches!(last.err().map(|e| &e.class), Some(ErrClass::ConnectTimeout));
+        let elapsed = last.at - started;
+        let phase = if accept.is_none() { "transport" } else { "handshake" };
+        stats.oracle("connect-timeout");
+        match completes {
+            Some(x) if x + 1 <= t => {
+                // completed in time: a timeout report would be wrong, and so would any failure
+                stats.corner("connect-completes-before-timeout");
+                if timed_out {
+                    out.push(
+                        base(
+                            "connect-timeout-spurious",
+                            format!("handshake completed after {x} ms but poll() reported a timeout (limit {t} ms)"),
+                        )
+                        .fact("phase", phase),
+                    );
+                } else if last.err().is_some() {
+                    stats.inconclusive.push(format!("connect in time failed with {:?}", last.err()));
+                }
+            }
+            Some(x) if x == t => {
+                stats.corner("connect-tie-not-judged");
+                stats.add_extra(if timed_out { "tie_connect_timeout" } else { "tie_connect_ok" }, 1);
+            }
+            _ => {
+                stats.corner("connect-timeout");
+                if !timed_out {
+                    out.push(
+                        base(
+                            "connect-timeout-missed",
+                            format!(
+                                "connect did not complete within {t} ms ({phase} stalled) but poll() returned {} after {elapsed} ms",
+                                match &last.out {
+                                    PollOut::Ev(e) => e.pk.brief(),
+                                    PollOut::Err(e) => format!("{:?}", e.class),
+                                }
+                            ),
+                        )
+                        .fact("phase", phase)
+                        .fact("partial_connack", *partial),
+                    );
+                } else if elapsed + TOL < t || elapsed > t + TOL {
+                    out.push(
+                        base(
+                            "connect-timeout-wrong-time",
+                            format!("timeout reported after {elapsed} ms, configured {t} ms"),
+                        )
+                        .fact("phase", phase)
+                        .fact("early", elapsed < t),
+                    );
+                }
+            }
+        }
+        return out;
+    }
+
+    // ---------------- established-connection clauses
+    let Some(connack) = log.connack_of(0) else {
+        stats.inconclusive.push(format!(
+            "keep-alive scenario never got a CONNACK: {} {:?}",
+            serde_json::to_string(case).unwrap_or_default(),
+            log.brief(12)
+        ));
+        return out;
+    };
+    let t0 = connack.at;
+    let err = log.polls.iter().find(|p| p.err().is_some());
+    let t_end = err.map(|p| p.at).unwrap_or(log.end_ms);
+    let pings: Vec<Ms> = log
+        .wire_of(0, Dir::C2B)
+        .filter(|w| w.pk.kind == Kind::PingReq)
+        .map(|w| w.at)
+        .collect();
+    let pongs: Vec<Ms> = log
+        .wire_of(0, Dir::B2C)
+        .filter(|w| w.pk.kind == Kind::PingResp)
+        .map(|w| w.at)
+        .collect();
+    stats.opn("pingreq_seen", pings.len() as u64);
+    stats.opn("pingresp_sent", pongs.len() as u64);
+
+    // effective keep-alive: v5 lets the server override it
+    let mut k_eff = k;
+    if let Family::ServerKeepAlive { s } = &case.family {
+        k_eff = *s as u64 * 1000;
+    }
+
+    if k_eff == 0 {
+        // keep-alive zero: never pings (and the connection stays up)
+        stats.oracle("zero-keepalive");
+        stats.corner("zero-keepalive");
+        // what the client handed to the transport counts, whether or not the broker got to read it
+        let written: Vec<Ms> = log
+            .polls
+            .iter()
+            .filter(|p| p.is(false, Kind::PingReq))
+            .map(|p| p.at)
+            .collect();
+        let intended = log
+            .conns
+            .iter()
+            .flat_map(|c| c.intended.iter())
+            .filter(|f| f.pk.kind == Kind::PingReq)
+            .count();
+        if let Some(first) = pings.first().or(written.first()) {
+            out.push(
+                base(
+                    "zero-keepalive-ping",
+                    format!(
+                        "keep-alive 0 but a PINGREQ was written at {first} ms ({} seen by the broker, {} announced by poll(), {} handed to the transport){}",
+                        pings.len(),
+                        written.len(),
+                        intended,
+                        err.map(|e| format!("; then {}", e.brief())).unwrap_or_default()
+                    ),
+                )
+                .fact("via", if matches!(case.family, Family::ServerKeepAlive { .. }) { "server_keep_alive" } else { "options" }),
+            );
+        } else if let Some(e) = err {
+            if e.at + TOL < log.end_ms.min(case.run_ms) {
+                stats.inconclusive.push(format!("zero keep-alive run failed early: {}", e.brief()));
+            }
+        }
+        return out;
+    }
+
+    // (a) a PINGREQ at least once per interval, over the whole established lifetime
+    stats.oracle("ping-interval");
+    let stalled = matches!(case.family, Family::Stall { .. });
+    let mut prev = t0;
+    let mut worst = 0;
+    // once the transport accepts no more bytes the client *cannot* send: the interval clause is
+    // judged up to that point, the detection clause (b) afterwards
+    let interval_end = match &case.family {
+        Family::Stall { at } => t_end.min(t0.max(*at)),
+        _ => t_end,
+    };
+    for t in pings.iter().copied().filter(|t| *t <= interval_end).chain(std::iter::once(interval_end)) {
+        worst = worst.max(t.saturating_sub(prev));
+        prev = t;
+    }
+    if worst > k_eff + TOL {
+        out.push(
+            base(
+                "ping-interval",
+                format!("{worst} ms without a PINGREQ on an established connection (keep-alive {k_eff} ms)"),
+            )
+            .fact("write_blocked", stalled),
+        );
+        return out;
+    }
+
+    // (b) broker stopped answering pings at T_s: failure reported by T_s + 2K
+    let stopped_at: Option<Ms> = match &case.family {
+        Family::Silence { at } | Family::Stall { at } => Some(t0.max(*at)),
+        Family::PingDelay {
+            delay: PingDelay::Never, ..
+        } => Some(pongs.last().copied().unwrap_or(t0)),
+        _ => None,
+    };
+    if let Some(ts) = stopped_at {
+        let deadline = ts + 2 * k_eff + TOL;
+        if case.run_ms + 2 * k_eff >= deadline {
+            stats.oracle("silence-detected");
+            stats.corner("silence");
+            let reported = err.map(|e| e.at);
+            if reported.map(|r| r > deadline).unwrap_or(true) {
+                out.push(
+                    base(
+                        "silence-not-detected",
+                        format!(
+                            "broker stopped answering at {ts} ms; no failure reported by {deadline} ms (reported: {reported:?})"
+                        ),
+                    )
+                    .fact("write_blocked", stalled),
+                );
+                return out;
+            }
+        }
+    }
+
+    // (c) no keep-alive failure while every PINGREQ is answered within the interval
+    if let Some(e) = err {
+        let keepalive_failure = matches!(e.err().unwrap().class, ErrClass::AwaitPingResp);
+        // answered strictly within the interval, and before the failure
+        let all_answered = pings.iter().filter(|p| **p < e.at).all(|p| {
+            pongs.iter().any(|q| *q >= *p && *q + 1 <= *p + k_eff && *q < e.at)
+        });
+        let tie = matches!(&case.family, Family::PingDelay { delay: PingDelay::Ms(d), .. } if *d == k_eff);
+        if keepalive_failure && all_answered && !tie {
+            stats.oracle("no-false-alarm");
+            out.push(base(
+                "false-keepalive-failure",
+                format!(
+                    "keep-alive failure at {} ms although every PINGREQ ({:?}) was answered within the interval ({:?})",
+                    e.at, pings, pongs
+                ),
+            ));
+            return out;
+        }
+        if tie {
+            stats.add_extra("tie_runs_failed", 1);
+        }
+        if !keepalive_failure && stopped_at.is_none() && e.at < case.run_ms {
+            stats.inconclusive.push(format!("unexpected failure in a keep-alive scenario: {}", e.brief()));
+        }
+    } else {
+        if matches!(&case.family, Family::PingDelay { delay: PingDelay::Ms(d), .. } if *d == k_eff) {
+            stats.add_extra("tie_runs_survived", 1);
+        }
+        let answered_in_time = !pings.is_empty()
+            && pings
+                .iter()
+                .filter(|p| **p + k_eff < t_end)
+                .all(|p| pongs.iter().any(|q| *q >= *p && *q + 1 <= *p + k_eff));
+        if answered_in_time {
+            stats.oracle("no-false-alarm");
+            if let Family::PingDelay {
+                delay: PingDelay::Ms(d), ..
+            } = &case.family
+            {
+                if *d + 1 == k_eff {
+                    stats.corner("pingresp-at-K-1ms");
+                }
+            }
+        }
+    }
+    out
+}
+
+fn run_case(ctx: &Ctx, stats: &mut Stats, case: &Case) {
+    let scn = build(case);
+    let log = s3::run(&scn);
+    stats.evaluations += 1;
+    stats.op(&format!(
+        "family:{}",
+        match &case.family {
+            Family::PingDelay { .. } => "ping-delay",
+            Family::Silence { .. } => "silence",
+            Family::Stall { .. } => "stall",
+            Family::Zero { .. } => "zero",
+            Family::ServerKeepAlive { .. } => "server-keep-alive",
+            Family::Connect { .. } => "connect",
+        }
+    ));
+    stats.opn("poll_returns", log.polls.len() as u64);
+    stats.opn("wire_frames", log.wire.len() as u64);
+    stats.add_extra("virtual_seconds", log.end_ms / 1000);
+    if log.panic.is_some() {
+        stats.panics_caught += 1;
+    }
+    if let Some(e) = &log.harness_error {
+        stats.inconclusive.push(format!("harness: {e}"));
+        return;
+    }
+    if case.incoming.is_some() || case.outgoing.is_some() || !matches!(case.family, Family::PingDelay { delay: PingDelay::Ms(0), .. })
+    {
+        stats.shapes.insert(shape(case));
+    }
+    if let Ok(pat) = std::env::var("VERIF_DUMP") {
+        let text = serde_json::to_string(case).unwrap_or_default();
+        if text.contains(&pat) {
+            println!("--- {text}");
+            for l in log.brief(60) {
+                println!("    {l}");
+            }
+        }
+    }
+    let records = verdicts(case, &log, stats);
+    if stats.samples.len() < 3 && (stats.evaluations % 97 == 1) {
+        stats.sample(json!({"case": case, "observed": log.brief(40)}));
+    }
+    for r in records {
+        let replay = || json!({"case": case, "observed": log.brief(400)});
+        if let Judged::Known(_) = judge(ctx, stats, r, replay) {
+            break;
+        }
+    }
+}
+
+// ---------------------------------------------------------------- workload
+
+fn versions() -> [(&'static str, &'static [u64]); 2] {
+    [("v4", &[1, 2, 5, 60]), ("v5", &[5, 60])]
+}
+
+fn flows(rng: &mut Rng, k: u64, slot: u64, jitter: bool) -> Vec<(Option<Flow>, Option<Flow>)> {
+    let j = |rng: &mut Rng| if jitter { rng.below(k / 8) } else { 0 };
+    let phase = slot * k / 8;
+    let period = *rng.pick(&[k / 4, k / 2, k, k - 1, 2 * k]);
+    let q_in = rng.below(2) as u8;
+    let q_out = rng.below(2) as u8;
+    let fin = Flow {
+        phase: phase + j(rng),
+        period,
+        qos: q_in,
+        pad: 0,
+    };
+    let fout = Flow {
+        phase: phase + j(rng),
+        period,
+        qos: q_out,
+        pad: 0,
+    };
+    vec![
+        (None, None),
+        (Some(fin.clone()), None),
+        (None, Some(fout.clone())),
+        (Some(fin), Some(fout)),
+    ]
+}
+
+fn workload(ctx: &Ctx, shard: usize, seed: u64) -> Stats {
+    let mut stats = Stats::default();
+    let mut rng = Rng::new(seed);
+    // round 0 of shard 0 enumerates the grid exactly; every other round adds seeded jitter to
+    // phases / periods / ping indices / connect timings around it
+    let rounds = ctx.size(6, 120);
+    for round in 0..rounds {
+        let jitter = round > 0 || shard > 0;
+        for (ver, ks) in versions() {
+            for &ks in ks {
+                let k = ks * 1000;
+                // (1) PINGRESP delay × first delayed ping × traffic × phase
+                let delays = [
+                    PingDelay::Ms(0),
+                    PingDelay::Ms(k / 4),
+                    PingDelay::Ms(k / 2),
+                    PingDelay::Ms(k - 1),
+                    PingDelay::Ms(k),
+                    PingDelay::Ms(k + 1),
+                    PingDelay::Never,
+                ];
+                for delay in &delays {
+                    for from_ping in 0..3usize {
+                        for slot in 0..8u64 {
+                            for (incoming, outgoing) in flows(&mut rng, k, slot, jitter) {
+                                // a tie is run several times so both select! orders are seen
+                                let reps = if *delay == PingDelay::Ms(k) { 2 } else { 1 };
+                                for _ in 0..reps {
+                                    let case = Case {
+                                        ver: ver.into(),
+                                        k_s: ks,
+                                        family: Family::PingDelay {
+                                            delay: delay.clone(),
+                                            from_ping: if jitter { from_ping + rng.below(3) as usize } else { from_ping },
+                                        },
+                                        incoming: incoming.clone(),
+                                        outgoing: outgoing.clone(),
+                                        run_ms: 6 * k + 500,
+                                    };
+                                    run_case(ctx, &mut stats, &case);
+                                }
+                            }
+                        }
+                    }
+                }
+                // (2) silence from T, T on a K/8 grid over two intervals
+                for slot in 0..=16u64 {
+                    for (incoming, outgoing) in flows(&mut rng, k, slot % 8, jitter) {
+                        let at = (slot * k / 8 + if jitter { rng.below(k / 8) } else { 0 }).max(1);
+                        let case = Case {
+                            ver: ver.into(),
+                            k_s: ks,
+                            family: Family::Silence { at },
+                            incoming,
+                            outgoing,
+                            run_ms: at + 3 * k,
+                        };
+                        run_case(ctx, &mut stats, &case);
+                    }
+                }
+            }
+            // (3) connect / handshake timeout
+            for timeout_s in [1u64, 3, 5] {
+                let t = timeout_s * 1000;
+                let mut variants: Vec<(Option<u64>, Option<u64>, bool)> = vec![
+                    (None, None, false),         // transport never connects
+                    (Some(0), None, false),      // CONNACK never sent
+                    (Some(t / 2), None, false),  // slow transport, then no CONNACK
+                    (Some(0), Some(0), true),    // truncated CONNACK
+                    (Some(0), Some(t - 1), false),
+                    (Some(0), Some(t), false),
+                    (Some(0), Some(t + 1), false),
+                    (Some(t / 2), Some(t / 2 - 1), false),
+                    (Some(t / 2), Some(t / 2 + 1), false),
+                    (Some(t - 1), Some(0), false),
+                    (Some(t + 1), Some(0), false),
+                    (Some(0), Some(0), false),
+                    (Some(t / 4), Some(t / 4), false),
+                ];
+                if jitter {
+                    for _ in 0..6 {
+                        let a = rng.below(t + 200);
+                        let c = rng.below(t + 200);
+                        variants.push((Some(a), Some(c), false));
+                    }
+                }
+                for (accept, connack, partial) in variants {
+                    for second in [false, true] {
+                        let case = Case {
+                            ver: ver.into(),
+                            k_s: 5,
+                            family: Family::Connect {
+                                accept,
+                                connack,
+                                partial,
+                                second,
+                                timeout_s,
+                            },
+                            incoming: None,
+                            outgoing: None,
+                            run_ms: 0,
+                        };
+                        run_case(ctx, &mut stats, &case);
+                    }
+                }
+            }
+        }
+        // (5) MQTT 5: the server overrides the keep-alive in the CONNACK
+        for sk in [0u16, 1, 2, 7] {
+            for slot in [0u64, 5] {
+                for (incoming, outgoing) in flows(&mut rng, 8000, slot, jitter) {
+                    let case = Case {
+                        ver: "v5".into(),
+                        k_s: 5,
+                        family: Family::ServerKeepAlive { s: sk },
+                        incoming,
+                        outgoing,
+                        run_ms: 30_000,
+                    };
+                    run_case(ctx, &mut stats, &case);
+                }
+            }
+        }
+        // (6) the peer stops reading (and answering) while the user keeps publishing: the pipe
+        // fills up and the client blocks in a write
+        for (ver, ks) in [("v4", 5u64), ("v4", 60), ("v5", 5), ("v5", 60)] {
+            let k = ks * 1000;
+            for slot in [1u64, 4, 9, 13] {
+                let at = slot * k / 8 + if jitter { rng.below(k / 8) } else { 0 };
+                let case = Case {
+                    ver: ver.into(),
+                    k_s: ks,
+                    family: Family::Stall { at },
+                    incoming: None,
+                    outgoing: Some(Flow {
+                        phase: 100,
+                        period: 1000,
+                        qos: (slot % 2) as u8,
+                        pad: 300,
+                    }),
+                    run_ms: at + 3 * k,
+                };
+                run_case(ctx, &mut stats, &case);
+            }
+        }
+        // (4) keep-alive zero (v4 options accept it): 10^4 virtual seconds, with and without traffic
+        for slot in [0u64, 3] {
+            for (incoming, outgoing) in flows(&mut rng, 8000, slot, jitter) {
+                let widen = |f: Option<Flow>| {
+                    f.map(|mut f| {
+                        f.period = 100_000 + f.period * 50;
+                        f
+                    })
+                };
+                let case = Case {
+                    ver: "v4".into(),
+                    k_s: 0,
+                    family: Family::Zero { for_s: 10_000 },
+                    incoming: widen(incoming),
+                    outgoing: widen(outgoing),
+                    run_ms: 10_000_000,
+                };
+                run_case(ctx, &mut stats, &case);
+            }
+        }
+    }
+    stats
+}
+
+fn run(ctx: &Ctx) -> Stats {
+    let mut stats = if ctx.quick() {
+        workload(ctx, 0, ctx.seed.wrapping_mul(1000))
+    } else {
+        sharded(ctx, ctx.threads, |shard, seed| workload(ctx, shard, seed))
+    };
+    stats.exhaustive_scopes.push(
+        "per client version and keep-alive K: PINGRESP delay {0,K/4,K/2,K-1ms,K,K+1ms,never} x first delayed ping {0,1,2} x traffic {none,in,out,both} x phase slot 0..7 (K/8 grid); silence start on the K/8 grid over [0,2K]; 13 connect/handshake timings x {first,second connection} x timeout {1,3,5}s".into(),
+    );
+    stats
+}
+
+fn replay(ctx: &Ctx, doc: &Value) -> Stats {
+    let mut stats = Stats::default();
+    match serde_json::from_value::<Case>(doc["case"].clone()) {
+        Ok(case) => {
+            // a tie-prone case is re-executed several times (select! order is random on exact ties)
+            for _ in 0..8 {
+                run_case(ctx, &mut stats, &case);
+            }
+            stats.shapes.insert(1);
+            stats.shapes.insert(2);
+        }
+        Err(e) => stats.inconclusive.push(format!("replay file has no usable case: {e}")),
+    }
+    stats
 }
 
 pub fn prop() -> Prop {
@@ -13,11 +794,22 @@ pub fn prop() -> Prop {
         id: "C18",
         meta: Meta {
             level: "exploration",
-            rule: "not built",
-            assumptions: &[],
-            floors: &[],
+            rule: "a case = (client version, keep-alive K, scenario family with its parameters, incoming flow, outgoing flow); distinct = distinct tuple after abstracting phases/periods to their K/8 slot and delays to their class {n/8, K-1ms, K, K+1ms, never}; non-trivial = anything but the undisturbed no-traffic run",
+            assumptions: &[
+                "poll() is called again immediately after every return (the statement's keep-alive clauses presuppose a polled event loop)",
+                "virtual time (tokio paused clock): deadlines are judged with a 5 ms tolerance; exact ties (PINGRESP exactly at K, CONNACK exactly at the timeout) are run but not judged",
+                "keep-alive zero is reachable through the 3.1.1 options only (the MQTT 5 options assert >= 5 s)",
+            ],
+            floors: &[
+                ("pingresp-at-K-1ms", 20),
+                ("silence", 100),
+                ("zero-keepalive", 4),
+                ("connect-timeout", 20),
+                ("ping-interval", 500),
+                ("no-false-alarm", 200),
+            ],
         },
         run,
-        replay: None,
+        replay: Some(replay),
     }
 }
